@@ -91,7 +91,9 @@ THEOREMS = {
     "C15": ["Iauthd.Conf.merge_ok", "Iauthd.Conf.merge_no_fault", "Iauthd.Conf.load_settles_aux", "Iauthd.Conf.load_settles",
             "Iauthd.Conf.reload_idem_aux", "Iauthd.Conf.load_idempotent", "Iauthd.Conf.load_twice",
             "Iauthd.Conf.str_hook_iff", "Iauthd.Conf.list_hook_iff", "Iauthd.Conf.pair_hook_iff", "Iauthd.Conf.updInaddr_val",
-            "Iauthd.Conf.walk_unmodified_keys", "Iauthd.Properties.C15",
+            "Iauthd.Conf.walk_unmodified_keys", "Iauthd.Conf.register_no_fault", "Iauthd.Conf.history_no_fault",
+            "Iauthd.Conf.C15_canonical", "Iauthd.Conf.register_lookup", "Iauthd.Conf.regStr_value",
+            "Iauthd.Conf.regList_value", "Iauthd.Conf.regInaddr_value", "Iauthd.Properties.C15",
             "Iauthd.Conf.Cex.f9_pinned_use_after_free", "Iauthd.Conf.Cex.f13_pinned_no_hook", "Iauthd.Conf.Cex.f13_fixed_hook",
             "Iauthd.Conf.Cex.f14_pinned_spurious_hook", "Iauthd.Conf.Cex.f14_fixed_no_hook",
             "Iauthd.Conf.Cex.f15_pinned_default_installed", "Iauthd.Conf.Cex.f15_pinned_other_order", "Iauthd.Conf.Cex.f15_fixed",
@@ -134,7 +136,7 @@ def lean_modules(prop):
     if prop == "C14":
         mods += ["Iauthd.Conf.ProofsRead"]
     if prop == "C15":
-        mods += ["Iauthd.Conf.ProofsHeap", "Iauthd.Conf.ProofsSettle", "Iauthd.Conf.ProofsHooks"]
+        mods += ["Iauthd.Conf.ProofsHeap", "Iauthd.Conf.ProofsSettle", "Iauthd.Conf.ProofsHooks", "Iauthd.Conf.ProofsRegister"]
     if prop == "C16":
         mods += ["Iauthd.Conf.ProofsRender", "Iauthd.Conf.ProofsCanon", "Iauthd.Conf.ProofsRoundtrip", "Iauthd.Conf.ProofsBridge",
                  "Iauthd.Conf.ProofsRoundtrip2", "Iauthd.Conf.ProofsBridge2", "Iauthd.Conf.ProofsTyped"]
@@ -424,7 +426,7 @@ def materialise(protos, default_tape=None):
 
 def gen_c15(tier, seed):
     rng = core.rng_for(seed, "conf15")
-    n = 1500 if tier == "quick" else 60000
+    n = 3000 if tier == "quick" else 60000
     protos = []
     for i in range(n):
         names = NAMES if rng.random() < 0.8 else NAMES[:3]
@@ -530,7 +532,7 @@ def enum_layouts(doc, window, limit):
 def gen_c16(tier, seed):
     rng = core.rng_for(seed, "conf16")
     protos = []
-    ndocs = 300 if tier == "quick" else 40000
+    ndocs = 700 if tier == "quick" else 40000
     per = 6 if tier == "quick" else 20
     for i in range(ndocs):
         depth = rng.choice([1, 2, 3])
@@ -544,7 +546,7 @@ def gen_c16(tier, seed):
         for ti, tape in enumerate(enum_layouts(doc, window, limit)):
             protos.append(("c16enum/%d.%d" % (di, ti), [("read", doc, tape), ("line", "dump")]))
     # typed settings: registered, then written in a file
-    for i in range(150 if tier == "quick" else 5000):
+    for i in range(400 if tier == "quick" else 5000):
         sub = rng.choice([1, 2, 4, 5])
         steps = [("line", "reg s %s %d %s hook=1" % (hx(b"t"), sub, hx(rng.choice(TYPED_DEFAULT[sub]))))]
         for _ in range(rng.choice([1, 2, 3])):
@@ -557,7 +559,7 @@ def gen_c16(tier, seed):
     for sub in (1, 2, 4, 5):
         for v in TYPED_POOL[sub]:
             lines.append("parse %d %s" % (sub, hx(v)))
-    for i in range(600 if tier == "quick" else 100000):
+    for i in range(3000 if tier == "quick" else 100000):
         sub = rng.choice([1, 2, 4, 5])
         lines.append("parse %d %s" % (sub, hx(typed_text(rng, sub))))
     for k in range(0, len(lines), 200):
@@ -632,7 +634,7 @@ def gen_c14(tier, seed):
             bodies.append(("short", b"".join(combo)))
     # valid files: generated + the repository's own
     valid = []
-    nvalid = 25 if tier == "quick" else 300
+    nvalid = 40 if tier == "quick" else 300
     reqs = []
     for i in range(nvalid):
         doc = rand_doc(rng, rng.choice([1, 2, 3]), NAMES, rng.choice([1, 2, 4]))
